@@ -9,7 +9,7 @@ from ..gen import J, JI
 from . import lincommon as lc
 
 PROP = "C11"
-HOSTILE = ("scale",)
+HOSTILE = ("scale", 'special')
 MONITORS = ("WF", "DENS", "CACHE")
 ANCHORS = [("conditional.py", "ConditionalGaussianPDF.set_y"),
            ("factor.py", "ConjugateFactor.product"),
@@ -180,10 +180,21 @@ def run_static(cell, rec, seed):
                       mech="route-a-posterior-Sigma")
             rec.close("sequential evidence", lp, lml_ref, ns=ns_l, detail=d, mech="route-a-evidence")
             history["orders"].append([int(i) for i in order])
-        # ---- route (b): joint transformation + coordinate conditioning
+        # ---- route (b): joint transformation + coordinate conditioning. The route inverts the
+        # joint over (w, y_i) at every step: as in C07 it is judged while those joints have a
+        # condition number <= 1e7 (float64 Schur complements lose eps * cond beyond that)
+        S_run, joint_cond = tp.Sigma[0], 0.0
+        for Mi, Si in zip(Ms, Ss):
+            C_ = S_run @ Mi.T
+            Sy_ = Mi @ C_ + Si
+            joint_cond = max(joint_cond, gen.cond(np.block([[S_run, C_], [C_.T, Sy_]])))
+            S_run = S_run - C_ @ np.linalg.solve(Sy_, C_.T)
+            S_run = 0.5 * (S_run + S_run.T)
         p = prior
-        okrun = True
-        for i in range(N):
+        okrun = joint_cond <= 1e7
+        if not okrun:
+            rec.count("joint_route_out_of_domain")
+        for i in range(N if okrun else 0):
             c, t, kw = obs[i]
             j = lc.call(rec, "affine_joint_transformation",
                         lambda: c.affine_joint_transformation(p, **kw), info)
@@ -311,7 +322,7 @@ def run_ssm(cell, rec, seed):
                 Cm, d = np.eye(Dy), np.zeros(Dy)
                 Rn = gen.spd(rng, Dy, kappa=10.0, scale=0.5)
             else:
-                Cm = gen.lin_map(rng, 1, Dy, Dz)[0]
+                Cm = gen.lin_map(rng, 1, Dy, Dz, special=True)[0]
                 d = gen.vec(rng, Dy, scale=0.5)
                 Rn = gen.spd(rng, Dy, kappa=10.0, scale=0.5, diag=(ok == "diag"))
             m0 = gen.vec(rng, Dz)
